@@ -299,6 +299,20 @@ func (n *bNode) startNode() error {
 		return fmt.Errorf("populate: %w", err)
 	}
 	n.objects = g.Objects()
+	// inject.Graph.Objects shuffles its answer with the global math/rand ("to
+	// prevent callers from relying on ordering"), and startstop starts and stops
+	// the objects of one dependency level in slice order: which of the two
+	// transmissions is stopped first differs from process to process in a real
+	// refinery. Here that order is the plan's: sorted by name and type, then
+	// permuted by the seed.
+	sort.SliceStable(n.objects, func(i, j int) bool {
+		a, b := fmt.Sprint(n.objects[i]), fmt.Sprint(n.objects[j])
+		ha, hb := H(w.p.Seed, "object-order", a), H(w.p.Seed, "object-order", b)
+		if ha != hb {
+			return ha < hb
+		}
+		return a < b
+	})
 	collect.SimHeapAlloc = simHeapHook
 	heapNodes.Store(n.coll, n)
 	if err := startstop.Start(n.objects, nullStartStopLogger{}); err != nil {
@@ -421,8 +435,13 @@ func decodeBatch(body []byte) ([]map[string]any, error) {
 	return items, nil
 }
 
-func (w *worldB) honeycomb(rec *NetRec, req *http.Request) *SimResp {
+func (w *worldB) honeycomb(rec *NetRec, req *http.Request) (resp *SimResp) {
 	from := req.Header.Get("X-Sim-From")
+	if stepLog {
+		defer func() {
+			w.out.Logf("HNY at=%v from=%s %s -> %d", rec.At, from, rec.Path, resp.Status)
+		}()
+	}
 	switch {
 	case strings.HasPrefix(rec.Path, "/1/auth") && w.stateless:
 		// race runs: answers after a while (a handler stays in progress meanwhile)
